@@ -161,7 +161,7 @@ def replay_sweep(case):
 def host_cases(draw, tier):
     kind = draw(st.sampled_from(['mul', 'mul', 'sq']))
     host = draw(arith.hosts(min_inputs=1, max_inputs=6, max_gates=8))
-    case = {'kind': kind, 'host': host, 'be': draw(st.booleans()), 'uuid_seed': draw(st.integers(0, 2 ** 20)),
+    case = {'kind': kind, 'host': host, 'host_route': draw(arith.gen.routes(host)), 'be': draw(st.booleans()), 'uuid_seed': draw(st.integers(0, 2 ** 20)),
             'row_seed': draw(st.integers(0, 2 ** 20))}
     if kind == 'mul':
         case['mode'] = draw(st.sampled_from(list(ADD_MUL)))
@@ -178,7 +178,7 @@ def check_host(case):
     from cirbo.synthesis.generation import arithmetics as ar
 
     host = case['host']
-    c = build.build(host)
+    c = build.build(host, case.get('host_route'))
     before = wellformed.snapshot(c)
     pats, mask, full = arith.rows_for(len(host['inputs']), case['row_seed'])
     t0 = refsem.tables(host, pats, mask)
